@@ -159,6 +159,35 @@ theorem vli_chunked_state_valid (a : List UInt8) (ha : a ≠ []) (h : (vliDecode
   obtain ⟨i1, i2, i3⟩ := vliDecLoop_ok_inv a 0 0 0 (by omega) (by simp) h
   exact ⟨i3 ha, i1, i2, by simpa using vliDecLoop_ok_consumed a 0 0 0 h⟩
 
+/-- The multi-call decoder fed the whole buffer at once is the single-call / specification decoder `Vli.vliDecode` (Model/Vli.lean,
+    the one C02/C03 reason about): `LZMA_STREAM_END` with value `v` after `c` bytes iff `vliDecode` yields `v` and the rest.
+    Together with `vli_chunked_refines`: however the bytes of a VLI arrive, the chunked decoder computes `vliDecode`. -/
+theorem vli_chunked_eq_whole (inp : List UInt8) :
+    vliDecode inp =
+      match vliDecodeMulti 0 0 inp with
+      | (.streamEnd, v, _, c) => some (v, inp.drop c)
+      | _ => none := by
+  cases inp with
+  | nil => simp [vliDecode, vliDecodeAux, vliDecodeMulti, VLI_BYTES_MAX]
+  | cons b t =>
+    have e0 : vliDecodeMulti 0 0 (b :: t) = vliDecLoop (b :: t) 0 0 0 := by simp [vliDecodeMulti, VLI_BYTES_MAX]
+    rw [e0]
+    have h := vliDecLoop_spec (b :: t) 0 0 0
+    simp only [vliDecode]
+    cases hd : vliDecodeAux 0 (b :: t) with
+    | none =>
+      simp only [hd] at h
+      split
+      · rename_i heq; rw [heq] at h; simp at h
+      · rfl
+    | some p =>
+      obtain ⟨v, r⟩ := p
+      simp only [hd] at h
+      obtain ⟨h1, h2, _⟩ := h
+      rw [h1]
+      simp only [Nat.mul_zero, Nat.pow_zero, Nat.mul_one, Nat.zero_add]
+      rw [← h2]
+
 /-- non-vacuity: 2^35+5 takes six bytes; split after 1, 2, …, 5 bytes, and with a trailing byte that must stay unread -/
 example : vliDecodeMulti 0 0 [0x85, 0x80, 0x80, 0x80, 0x80, 0x01, 0x77] = (.streamEnd, 2 ^ 35 + 5, 6, 6) := by decide +kernel
 example : vliDecodeMulti 0 0 [0x85, 0x80, 0x80] = (.ok, 5, 3, 3) := by decide +kernel
